@@ -3,8 +3,21 @@
 //! is attributable to one write. The generator's model gives the exact observations for the
 //! determinate shapes and a multiset for the fan-in shape.
 
+use super::tytree::{Gen, Mutation, Val};
 use super::{Projection, Workload};
 use crate::rng::Rng;
+use std::cell::RefCell;
+
+/// shape of the messages of the current program when the kind is `Tree`: the body every message
+/// starts with, and the in-place mutation `touch` performs on it
+struct TreeCtx {
+    template: Val,
+    mutation: Option<Mutation>,
+}
+
+thread_local! {
+    static TREE: RefCell<Option<TreeCtx>> = const { RefCell::new(None) };
+}
 
 #[derive(Clone, Copy, Debug, PartialEq)]
 pub enum Kind {
@@ -20,6 +33,8 @@ pub enum Kind {
     Closure,
     /// an array of well over a hundred heap strings (a message that is large to copy)
     BigArr,
+    /// a struct wrapping a random shape from the type algebra (nested up to three levels)
+    Tree,
 }
 
 const KINDS: &[Kind] = &[
@@ -33,6 +48,9 @@ const KINDS: &[Kind] = &[
     Kind::Node,
     Kind::Closure,
     Kind::BigArr,
+    Kind::Tree,
+    Kind::Tree,
+    Kind::Tree,
 ];
 
 #[derive(Clone, Debug)]
@@ -47,6 +65,29 @@ enum V {
     Node(Vec<String>, String),
     Closure(String),
     Big(Vec<String>),
+    Tree(i64, i64, Val),
+}
+
+/// the Abra side of a `Tree` kind: type declarations, `mk`, `show`, `touch`; sets up the model
+fn tree_fns(rng: &mut Rng) -> (String, String) {
+    let mut g = Gen::new();
+    let depth = rng.range(1, 3) as u32;
+    let ty = g.mutable_ty(rng, depth);
+    let (template, init) = g.value(rng, &ty);
+    let show_fn = g.show_fn(&ty);
+    let mutation = g.plan_mutation(rng, &ty, &template, "k");
+    let touch_body = match &mutation {
+        Some(m) => format!("    {}(x.body)\n", g.mutation_fn(&ty, m)),
+        None => String::new(),
+    };
+    let mut code = g.decls.clone();
+    code.push_str(&format!("type Msg = {{\n    w: int\n    seq: int\n    body: {}\n}}\n", ty.name()));
+    code.push_str(&format!("fn mk(w: int, seq: int) -> Msg {{\n    Msg(w, seq, {init})\n}}\n"));
+    code.push_str(&format!("fn show(x: Msg) -> string {{\n    \"\" .. x.w .. \"/\" .. x.seq .. \"/\" .. {show_fn}(x.body)\n}}\n"));
+    code.push_str(&format!("fn touch(x: Msg, k: int) -> Msg {{\n{touch_body}    x.seq = x.seq + 1000 * k\n    x\n}}\n"));
+    let descr = ty.describe();
+    TREE.with(|t| *t.borrow_mut() = Some(TreeCtx { template, mutation }));
+    (code, descr)
 }
 
 impl Kind {
@@ -62,6 +103,7 @@ impl Kind {
             Kind::Node => "Shape",
             Kind::Closure => "int -> string",
             Kind::BigArr => "array<string>",
+            Kind::Tree => "Msg",
         }
     }
 
@@ -77,6 +119,7 @@ impl Kind {
             Kind::Node => "enum",
             Kind::Closure => "closure",
             Kind::BigArr => "array<string>[130+]",
+            Kind::Tree => "tree",
         }
     }
 
@@ -175,6 +218,8 @@ fn touch(x: Rec, k: int) -> Rec {
 }
 "#
             }
+            // generated per program, see `tree_fns`
+            Kind::Tree => "",
             Kind::BigArr => {
                 r#"fn mk(w: int, seq: int) -> array<string> {
     let a = []
@@ -259,6 +304,7 @@ fn touch(x: Shape, k: int) -> Shape {
             Kind::Node => V::Node(vec![format!("a{seq}")], format!("m{w}")),
             Kind::Closure => V::Closure(format!("m{w}_{seq}/7")),
             Kind::BigArr => V::Big((0..130 + seq * 7).map(|k| format!("e{w}_{seq}_{k}")).collect()),
+            Kind::Tree => TREE.with(|t| V::Tree(w, seq, t.borrow().as_ref().unwrap().template.clone())),
         }
     }
 
@@ -285,6 +331,7 @@ impl V {
             V::Node(xs, y) => format!("N{}{y}", xs.iter().map(|e| format!("{e},")).collect::<String>()),
             V::Closure(s) => s.clone(),
             V::Big(a) => format!("{}:{}", a.len(), a.iter().map(|e| format!("{e},")).collect::<String>()),
+            V::Tree(w, seq, body) => format!("{w}/{seq}/{}", body.show()),
         }
     }
 
@@ -320,6 +367,15 @@ impl V {
                 let mut a = a.clone();
                 a.push(format!("k{k}"));
                 V::Big(a)
+            }
+            V::Tree(w, seq, body) => {
+                let mut body = body.clone();
+                TREE.with(|t| {
+                    if let Some(m) = &t.borrow().as_ref().unwrap().mutation {
+                        m.apply(&mut body);
+                    }
+                });
+                V::Tree(*w, seq + 1000 * k, body)
             }
         }
     }
@@ -405,7 +461,14 @@ pub fn generate(rng: &mut Rng, shapes: &[Shape], print_from_main: bool) -> Workl
     let ty = kind.ty();
     let m = if kind == Kind::BigArr { rng.range(1, 3) as i64 } else { rng.range(2, 6) as i64 };
     let mut src = String::from(COMMON);
-    src.push_str(kind.fns());
+    let mut kind_descr = kind.name().to_string();
+    if kind == Kind::Tree {
+        let (code, descr) = tree_fns(rng);
+        src.push_str(&code);
+        kind_descr = format!("struct{{int,int,{descr}}}");
+    } else {
+        src.push_str(kind.fns());
+    }
     src.push('\n');
     let mut obs: Vec<(i64, String)> = vec![];
     let mut sorted_only = false;
@@ -643,7 +706,7 @@ pub fn generate(rng: &mut Rng, shapes: &[Shape], print_from_main: bool) -> Workl
     src.push_str("1\n");
     let mut w = Workload::new(
         if print_from_main { "kpn" } else { "conc" },
-        format!("{shape:?} over channel<{}> x{m}", kind.name()),
+        format!("{shape:?} over channel<{kind_descr}> x{m}"),
         src,
     );
     w.has_tasks = true;
